@@ -51,6 +51,9 @@ NATIVE = {
     'n_elf_sections_tag_layout': dict(crate='multiboot2', file='elf_sections.rs', props=['C19', 'C01', 'C04'],
         bound='every declared size 20..=219 of an ELF-sections tag (0..=3 ELF64 entries of 64 bytes), marker contents; plus one image with three distinct field words (201 cases)',
         functions=['ElfSectionsTag layout assumed by Verus (elf_tag_wf): fields at offsets 8/12/16, tail at offset 20 with size-20 elements, size_of_val; ElfSectionsTag::sections entry addresses (Kani cannot compile this type)']),
+    'n_elf_sections_truncated': dict(crate='multiboot2', file='elf_sections.rs', props=['C19', 'C01', 'C05'],
+        bound='entry sizes {40, 64} x 1..=3 entries x declared size 0..=24 bytes short of 20 + n * entry_size x string-table index {0, n-1, n, n+1} (600 cases): rejected by a controlled panic iff truncated or index out of range, else exactly n entries inside the tag',
+        functions=['ElfSectionsTag::sections acceptance condition on the compiled type (Kani cannot compile this type; keeps changes that make the Verus unit undecided replayable)']),
     'n_elf_section_names': dict(crate='multiboot2', file='elf_sections.rs', props=['C19'],
         bound='ELF64, three entries, string-table index 0 and 2, ten name offsets 0..131056 in a real 128 KiB string table (20 cases)',
         functions=['ElfSection::name / string_table: "names resolve through the string-table entry the tag designates" (reads memory outside the tag: outside the Verus memory model; Kani loses the object of an integer-to-pointer cast)']),
